@@ -405,11 +405,23 @@ def shrink(text, modes, h, variant, fl, hbin):
     return btext, hh, best
 
 
+# the cases proved in Coq (two modes, diagonal h; Properties_C12.free_vertex_zero_C_partial), observed on the library: every index quadruple that
+# does not vanish trivially plus two that do, one frequency triple per resonance pattern
+PROVED_QUADS = [(0, 1, 0, 1), (0, 1, 1, 0), (1, 0, 1, 0), (1, 0, 0, 1), (0, 0, 0, 0), (1, 1, 1, 1), (0, 0, 0, 1), (0, 0, 1, 1)]
+PROVED_TRIPLES = [(0, 1, 2), (1, 0, 1), (0, 1, 1), (0, -1, 2), (0, -1, 0), (0, -1, -1), (1, 1, 1), (-2, 1, -2), (2, -3, -3)]
+PROVED_MODELS = [("proved-diag-generic", [[0.5, 0], [0, -0.25]]), ("proved-diag-degenerate", [[0.5, 0], [0, 0.5]]),
+                 ("proved-diag-opposite", [[0.75, 0], [0, -0.75]]), ("proved-diag-zero", [[0, 0], [0, 0]])]
+
+
 def models(chk, quick):
     rng = chk.rng
     out = []
+    layout, modes, _ = LAYOUTS[2][0]
+    for k, (name, h) in enumerate(PROVED_MODELS):
+        for symm in (["default", "ignore"] if not quick else [["default", "ignore"][k % 2]]):
+            out.append((name, "real", layout, modes, h, symm, [2, 1, 4, 2][k]))
     kinds = ["random", "diagonal", "diag-degenerate", "degenerate", "zero", "block", "ph-symmetric"]
-    sizes = [2, 3, 4] if quick else [2, 3, 4, 4, 5]
+    sizes = [2, 3, 4] if quick else [2, 2, 3, 3, 4, 4, 4, 5]
     for M in sizes:
         for kind in kinds:
             if quick and M == 3 and kind in ("block", "zero"):
@@ -423,8 +435,8 @@ def models(chk, quick):
                     beta = 2
                 out.append((kind, "real", layout, modes, h, symm, beta))
     if not quick:
-        for M in (2, 4, 4):
-            for kind in ("random", "degenerate", "block", "ph-symmetric"):
+        for M in (2, 2, 4, 4, 4):
+            for kind in ("random", "degenerate", "block", "ph-symmetric", "diag-degenerate"):
                 layout, modes, must_ignore = rng.choice(LAYOUTS[M])
                 for symm in (["ignore"] if must_ignore else ["default", "ignore"]):
                     out.append((kind + "-complex", "complex", layout, modes, gen_h(rng, M, kind, True), symm, rng.choice([1, 2, 4])))
@@ -453,8 +465,11 @@ def run(chk):
         M = len(modes)
         text = model_text(layout, modes, h, symm, beta)
         nq = 5 if quick else 8
-        quads = quadruples(chk.rng, M, nq if M <= 4 else 4)
-        triples = scen.matsubara_triples(chk.rng, 10 if quick else 16, span=2) + [(0, 0, 0), (0, -1, 0), (1, -2, -2)]
+        if kind.startswith("proved-"):
+            quads, triples = PROVED_QUADS, PROVED_TRIPLES
+        else:
+            quads = quadruples(chk.rng, M, nq if M <= 4 else 4)
+            triples = scen.matsubara_triples(chk.rng, 10 if quick else 16, span=2) + [(0, 0, 0), (0, -1, 0), (1, -2, -2)]
         fails, cases, info = evaluate(text, modes, h, variant, quads, triples, hb[variant])
         nmod += 1
         if info.get("error"):
